@@ -192,9 +192,10 @@ C12Step ==
         told == [i \in DOMAIN all |-> all[i]]
         adjc == IF E.ev = "Create" /\ Ok THEN <<[c |-> E.c, r |-> E.adj]>> ELSE <<>>
         every == adjc \o all
-        \* F-C12-3: CPU pinning was switched off by a configuration update AFTER the container had been pinned, and an
-        \* UpdateContainer with unchanged resources re-sends the cached (unchanged) cpuset (nri.go short-circuit path)
-        retold(i) == /\ E.ev = "Update" /\ ~world'.pincpu /\ ~ctrs'[every[i].c].pcpu /\ every[i].c \in DOMAIN rt
+        \* F-C12-3: CPU pinning was switched off by a configuration update AFTER the container had been pinned; the cache
+        \* keeps the cpuset and later requests re-send it UNCHANGED (UpdateContainer with identical resources: nri.go
+        \* short-circuit path; flush of changes an earlier failed request left pending)
+        retold(i) == /\ ~world'.pincpu /\ ~ctrs'[every[i].c].pcpu /\ every[i].c \in DOMAIN rt
                      /\ Has(rt[every[i].c], "cpus") /\ rt[every[i].c].cpus = SetOf(every[i].r.cpus)
         \* F-C13-3 seen under C12: a configuration that would switch CPU pinning on is rejected while being applied
         \* (a re-allocation fails); the cpusets already decided under it are pushed although pinning stays off
@@ -205,7 +206,7 @@ C12Step ==
                          \* ... or left pending by it and delivered by this request
                          \/ /\ every[i].c \in residue /\ ~world'.pincpu /\ ~ctrs'[every[i].c].pcpu
     IN {V("Act_PreserveCpuNeverTold",
-          IF retold(i) THEN "unchanged-cpuset-retold-by-identical-update-after-cpu-pinning-switched-off"
+          IF retold(i) THEN "unchanged-cpuset-retold-after-cpu-pinning-switched-off"
           ELSE IF rejectedOn(i) THEN "cpuset-pushed-by-configuration-rejected-while-switching-cpu-pinning-on"
           ELSE "cpuset-told-to-cpu-opted-out-container", every[i].c) :
             i \in {i \in DOMAIN every : cpuOut(every[i].c) /\ Has(every[i].r, "cpus")}}
